@@ -257,7 +257,14 @@ def long_sides_stream(ctx, rng, name='xcube-long-sides') -> Stream:
     s = Stream(name)
     from panqec.codes import XCubeCode
     sizes = LONG_SIZES if thorough else [LONG_SIZES[i] for i in sorted(rng.choice(len(LONG_SIZES), 3, replace=False))]
+    import time as _time
+    t0 = _time.time()
     for size in sizes:
+        if _time.time() - t0 > (900 if thorough else 300):
+            # wall-clock budget (about 4x what the unchanged tree needs): an implementation whose BP-OSD stage
+            # stops converging spends seconds per decode here; the sizes done so far are compared
+            s.hist['stopped-by-time-budget'] = 1
+            break
         code = XCubeCode(*size)
         n = code.n
         spec = {'size': list(size), 'direction': [0.25, 0.25, 0.5], 'p': 0.125}
